@@ -1,4 +1,6 @@
 import HexProofs.Framework.Program
+import HexProofs.Framework.Gen.ProgramMore
+import HexProofs.Framework.Gen.ProgramLife
 import HexProofs.Writes.MembersC14
 import HexProofs.Framework.Gen.AllX
 import HexProofs.Framework.Gen.IndexTrees
@@ -448,5 +450,142 @@ example := @MembersC14Ex.applied
 #print axioms C14_member
 #print axioms C14_member_hexital
 #print axioms C14_member_tf
+
+/-! ### Heikin-Ashi managers (HexProofs/Framework/Gen/ProgramMore.lean) -/
+
+/-- **C14 on a Heikin-Ashi manager** `{ ha := true }` (raw stream reading-free and unconverted) -/
+theorem C14_trees_ha (k : Kind F) (name : String) (round : Nat) (hk : CoveredTreeX name k) (init : List (Candle F))
+    (ops : List (Op F)) (hraw : RawHAPlain (init ++ (ops.map Op.added).flatten)) (s₀ s : IndState F)
+    (h₀ : IndState.init (mkTop k name round) { ha := true } init = .ok s₀) (hruns : Runs s₀ ops s)
+    (out : List (Candle F)) :
+    candlesOf s.calculate = .ok out ↔
+      candlesOf (runBatch (mkTop k name round) { ha := true } (init ++ (ops.map Op.added).flatten)) = .ok out :=
+  Hex.C14_trees_ha hk round init ops hraw s₀ s h₀ hruns out
+
+/-- **C14 on any Heikin-Ashi manager**: any timeframe or none, gap filling off or on (raw stream `RawTfHA`) -/
+theorem C14_trees_haCfg (tf : Option Int) (htf : ∀ t, tf = some t → 0 < t) (fill : Bool) (k : Kind F) (name : String)
+    (round : Nat) (hk : CoveredTreeX name k) (init : List (Candle F)) (ops : List (Op F))
+    (hraw : RawTfHA (init ++ (ops.map Op.added).flatten)) (s₀ s : IndState F)
+    (h₀ : IndState.init (mkTop k name round) { tf := tf, fill := fill && tf.isSome, ha := true } init = .ok s₀)
+    (hruns : Runs s₀ ops s) (out : List (Candle F)) :
+    candlesOf s.calculate = .ok out ↔
+      candlesOf (runBatch (mkTop k name round) { tf := tf, fill := fill && tf.isSome, ha := true }
+        (init ++ (ops.map Op.added).flatten)) = .ok out :=
+  program_converges_haCfg hk round tf htf fill init ops hraw s₀ s h₀ hruns out
+
+theorem calculate_idempotent_trees_haCfg (tf : Option Int) (htf : ∀ t, tf = some t → 0 < t) (fill : Bool) (k : Kind F)
+    (name : String) (round : Nat) (hk : CoveredTreeX name k) (init : List (Candle F)) (ops : List (Op F))
+    (hraw : RawTfHA (init ++ (ops.map Op.added).flatten)) (s₀ s s₁ : IndState F)
+    (h₀ : IndState.init (mkTop k name round) { tf := tf, fill := fill && tf.isSome, ha := true } init = .ok s₀)
+    (hruns : Runs s₀ ops s) (h : s.calculate = .ok s₁) : candlesOf s₁.calculate = .ok s₁.mgr.candles :=
+  calculate_idempotent_haCfg hk round tf htf fill init ops hraw s₀ s s₁ h₀ hruns h
+
+/-- `purge()` gives back the CONVERTED collapsed (filled) stream without readings -/
+theorem purge_restores_spec_trees_haCfg (tf : Option Int) (htf : ∀ t, tf = some t → 0 < t) (fill : Bool) (k : Kind F)
+    (name : String) (round : Nat) (hk : CoveredTreeX name k) (init : List (Candle F)) (ops : List (Op F))
+    (hraw : RawTfHA (init ++ (ops.map Op.added).flatten)) (s₀ s : IndState F)
+    (h₀ : IndState.init (mkTop k name round) { tf := tf, fill := fill && tf.isSome, ha := true } init = .ok s₀)
+    (hruns : Runs s₀ ops s) :
+    s.purge.mgr.candles = haSpec ((mgrSpecOf F tf htf fill).spec (init ++ (ops.map Op.added).flatten)) :=
+  purge_restores_spec_haCfg hk round tf htf fill init ops hraw s₀ s h₀ hruns
+
+theorem recalculate_reproduces_trees_haCfg (tf : Option Int) (htf : ∀ t, tf = some t → 0 < t) (fill : Bool) (k : Kind F)
+    (name : String) (round : Nat) (hk : CoveredTreeX name k) (init : List (Candle F)) (ops : List (Op F))
+    (hraw : RawTfHA (init ++ (ops.map Op.added).flatten)) (s₀ s s₁ : IndState F)
+    (h₀ : IndState.init (mkTop k name round) { tf := tf, fill := fill && tf.isSome, ha := true } init = .ok s₀)
+    (hruns : Runs s₀ ops s) (h : s.calculate = .ok s₁) : candlesOf s₁.recalculate = .ok s₁.mgr.candles :=
+  recalculate_reproduces_haCfg hk round tf htf fill init ops hraw s₀ s s₁ h₀ hruns h
+
+theorem calculate_index_after_program_trees_haCfg (tf : Option Int) (htf : ∀ t, tf = some t → 0 < t) (fill : Bool)
+    (k : Kind F) (name : String) (round : Nat) (hk : CoveredTreeX name k) (init : List (Candle F)) (ops : List (Op F))
+    (hraw : RawTfHA (init ++ (ops.map Op.added).flatten)) (s₀ s s₁ : IndState F)
+    (h₀ : IndState.init (mkTop k name round) { tf := tf, fill := fill && tf.isSome, ha := true } init = .ok s₀)
+    (hruns : Runs s₀ ops s) (h : s.calculate = .ok s₁) (i : Int) (hlo : -(s₁.mgr.candles.length : Int) ≤ i)
+    (hhi : i < s₁.mgr.candles.length) : candlesOf (s₁.calculateIndex i none) = .ok s₁.mgr.candles :=
+  calculateIndex_after_program_haCfg hk round tf htf fill init ops hraw s₀ s s₁ h₀ hruns h i hlo hhi
+
+/-- non-vacuity: KC on `{ tf := some 120, ha := true }` over one-minute candles, a 13-step program -/
+example := @HADemo.prog_runs_tfHA
+
+/-! ### lifespan managers (HexProofs/Framework/Gen/ProgramLife.lean) -/
+
+/-- **C14 on a lifespan manager: programs converge to the batch state over the VIRTUAL stream** `σ.V` (what was held at
+the last `purge()` / `recalculate()` / construction plus everything appended since), minus the `σ.d` popped candles;
+an equation in `PyM`.  `lifeSem` computes `σ` from the raw candles and checks the retention of the look-back. -/
+theorem C14_trees_lifespan (k : Kind F) (name : String) (round : Nat) (hk : CoveredTreeX name k) (life : Int)
+    (init : List (Candle F)) (ops : List (Op F)) (hp : RawInput init) (s₀ s : IndState F)
+    (h₀ : IndState.init (mkTop k name round) { lifespan := some life } init = .ok s₀) (hruns : Runs s₀ ops s)
+    (σ : LState F) (hsem : lifeSem life (treeLook k name round) init ops = some σ) :
+    candlesOf s.calculate = (candlesOf (runBatch (mkTop k name round) {} σ.V)).map (·.drop σ.d) :=
+  program_converges_lifespan hk round life init ops hp s₀ s h₀ hruns σ hsem
+
+/-- (i) programs without `purge` / `recalculate` (C15b for programs): the virtual stream is what the construction kept
+plus everything appended -/
+theorem C14_trees_lifespan_nopurge (k : Kind F) (name : String) (round : Nat) (hk : CoveredTreeX name k) (life : Int)
+    (init V₀ : List (Candle F)) (ops : List (Op F)) (hp : RawInput init)
+    (hV : trimCandles (some life) init = .ok V₀) (hno : ∀ op ∈ ops, op.keepsReadings = true) (s₀ s : IndState F)
+    (h₀ : IndState.init (mkTop k name round) { lifespan := some life } init = .ok s₀)
+    (hruns : Runs s₀ (.calculate :: ops) s)
+    (σ : LState F) (hsem : lifeSem life (treeLook k name round) init (.calculate :: ops) = some σ) :
+    candlesOf s.calculate
+      = (candlesOf (runBatch (mkTop k name round) {} (V₀ ++ (ops.map Op.added).flatten))).map (·.drop σ.d) :=
+  program_converges_lifespan_nopurge hk round life init V₀ ops hp hV hno s₀ s h₀ hruns σ hsem
+
+/-- (ii) `purge()` gives the raw candles currently held: a reading-free suffix of everything received -/
+theorem purge_gives_held_lifespan (k : Kind F) (name : String) (round : Nat) (hk : CoveredTreeX name k) (life : Int)
+    (init : List (Candle F)) (ops : List (Op F)) (hp : RawInput init) (s₀ s : IndState F)
+    (h₀ : IndState.init (mkTop k name round) { lifespan := some life } init = .ok s₀) (hruns : Runs s₀ ops s)
+    (σ : LState F) (hsem : lifeSem life (treeLook k name round) init ops = some σ) :
+    s.purge.mgr.candles = σ.V.drop σ.d ∧ RawInput s.purge.mgr.candles ∧
+      s.purge.mgr.candles <:+ init ++ (ops.map Op.added).flatten ∧
+      trimCandles (some life) s.purge.mgr.candles = .ok s.purge.mgr.candles :=
+  purge_gives_held hk round life init ops hp s₀ s h₀ hruns σ hsem
+
+/-- (ii) `recalculate()` is the batch run over the candles currently held -/
+theorem recalculate_eq_batch_held_lifespan (k : Kind F) (name : String) (round : Nat) (hk : CoveredTreeX name k)
+    (life : Int) (init : List (Candle F)) (ops : List (Op F)) (hp : RawInput init) (s₀ s : IndState F)
+    (h₀ : IndState.init (mkTop k name round) { lifespan := some life } init = .ok s₀) (hruns : Runs s₀ ops s)
+    (σ : LState F) (hsem : lifeSem life (treeLook k name round) init ops = some σ) :
+    candlesOf s.recalculate = candlesOf (runBatch (mkTop k name round) {} s.purge.mgr.candles) ∧
+    candlesOf s.recalculate = candlesOf (runBatch (mkTop k name round) { lifespan := some life } s.purge.mgr.candles) :=
+  recalculate_eq_batch_held hk round life init ops hp s₀ s h₀ hruns σ hsem
+
+/-- (iii) on a stamped, sorted stream `recalculate()` is the batch run with the SAME configuration over everything
+received -/
+theorem recalculate_eq_batch_lifespan (k : Kind F) (name : String) (round : Nat) (hk : CoveredTreeX name k)
+    (life : Int) (init : List (Candle F)) (ops : List (Op F))
+    (hraw : RawTf (init ++ (ops.map Op.added).flatten)) (s₀ s : IndState F)
+    (h₀ : IndState.init (mkTop k name round) { lifespan := some life } init = .ok s₀) (hruns : Runs s₀ ops s)
+    (σ : LState F) (hsem : lifeSem life (treeLook k name round) init ops = some σ) :
+    trimCandles (some life) (init ++ (ops.map Op.added).flatten) = .ok s.purge.mgr.candles ∧
+    candlesOf s.recalculate
+      = candlesOf (runBatch (mkTop k name round) { lifespan := some life } (init ++ (ops.map Op.added).flatten)) :=
+  recalculate_eq_batch_sameCfg hk round life init ops hraw s₀ s h₀ hruns σ hsem
+
+theorem calculate_idempotent_trees_lifespan (k : Kind F) (name : String) (round : Nat) (hk : CoveredTreeX name k)
+    (life : Int) (init : List (Candle F)) (ops : List (Op F)) (hp : RawInput init) (s₀ s s₁ : IndState F)
+    (h₀ : IndState.init (mkTop k name round) { lifespan := some life } init = .ok s₀) (hruns : Runs s₀ ops s)
+    (σ : LState F) (hsem : lifeSem life (treeLook k name round) init ops = some σ)
+    (h : s.calculate = .ok s₁) : candlesOf s₁.calculate = .ok s₁.mgr.candles :=
+  calculate_idempotent_lifespan hk round life init ops hp s₀ s s₁ h₀ hruns σ hsem h
+
+theorem calculate_index_reproduces_trees_lifespan (k : Kind F) (name : String) (round : Nat) (hk : CoveredTreeX name k)
+    (life : Int) (init : List (Candle F)) (ops : List (Op F)) (hp : RawInput init) (s₀ s s₁ : IndState F)
+    (h₀ : IndState.init (mkTop k name round) { lifespan := some life } init = .ok s₀) (hruns : Runs s₀ ops s)
+    (σ : LState F) (hsem : lifeSem life (treeLook k name round) init ops = some σ)
+    (h : s.calculate = .ok s₁) (i : Int) (hlo : -(s₁.mgr.candles.length : Int) ≤ i) (hhi : i < s₁.mgr.candles.length)
+    (hL : σ.d = 0 ∨ (treeLook k name round : Int) ≤ (if i < 0 then i + (s₁.mgr.candles.length : Int) else i)) :
+    candlesOf (s₁.calculateIndex i none) = .ok s₁.mgr.candles :=
+  calculateIndex_lifespan hk round life init ops hp s₀ s s₁ h₀ hruns σ hsem h i hlo hhi hL
+
+/-- what is FALSE on a lifespan manager (SMA 2, lifespan 30 s; replayed on the library): the final state is not the
+tail of the batch run over everything received; `recalculate()` after `calculate()` does not reproduce; without a
+`recalculate()` the final state is not the batch run with the same configuration -/
+example := @LifeWitness.final_ne_tail
+example := @LifeWitness.recalculate_not_reproduces
+example := @LifeWitness.append_ne_batch_sameCfg
+/-- non-vacuity: a 12-step program that pops before and after a `recalculate()` -/
+example := @LifeWitness.progL_runs
+example := @LifeWitness.progL_sem
 
 end Hex.C14
